@@ -1,5 +1,8 @@
 import NanoVerif.Proofs.EarlyStopping
 import NanoVerif.Proofs.Boost
+import NanoVerif.Proofs.BoostFit
+import NanoVerif.Proofs.MLResult
+import NanoVerif.Proofs.BoostFitTop
 import Mathlib.Data.List.Induction
 import Mathlib.Tactic.FieldSimp
 import Mathlib.Tactic.NormNum
@@ -13,6 +16,45 @@ import Mathlib.Tactic.NormNum
   number of weak learners `n`, the number of validation samples and a name `idx` for its per-sample tensor.
   `Improves eps best c` is the specification of "accepted" (see `Model/EarlyStopping.lean`).
   The initial `m_value = DBL_MAX` enters as the hypothesis `c.valid < v0 - eps` on observed validation errors.
+
+  ### Gap table (every function of the anchored files; `modelled` = hand-written Lean definition tied by a correspondence family,
+  `translated` = regenerated into Gen/, `oracle` = a parameter of the model with the stated contract, `outside` = not in any model)
+
+  | file: function | status |
+  |---|---|
+  | gboost/early_stopping.cpp: constructor, `done` | translated — `Gen.EarlyStopping.init`, `done` (family `es`) |
+  | gboost/model.cpp: `make_params` | outside (the grid of the `global` ratio is C13's parameter space); only "one parameter in `global` mode" is used |
+  | … `decode_params` | modelled — `BoostFit.startRatio` (gbloop: ratio column of the rows) |
+  | … `selected` | modelled — `foldResult.trainValues / validValues` |
+  | … `make_cluster` | modelled (dimension only) — `clusterGroups`; the cluster itself is C10's `splitOne`; monitor: `len(x) = 1` in gboost mode |
+  | … `::fit` | modelled — `fitStart`, `shrunk`, `roundStep`, `roundLoop`, `fitRun`, `foldResult`, `fitFold` (control: `Boost.step/loop/fit`, tied by gbloop; data flow: rows, ratios, tune scan tied by the gbloop extension `X`). Oracles: bias fit `b`; `gfunction.gradients` (inside the weak-learner fit oracle); `sampler.sample` (oracle here, modelled by C12 `Split.gboostSample`; contract monitored with hook H3b); `wlearner->fit` (C10's models; here `RoundOr.cands`); the scaling solve `RoundOr.x/xmin` (objective: C09); `loss.error/value` = `Env.err/loss` (C06) |
+  | … `gboost_model_t` constructor / copies / `prototypes` / `read` / `write` / `features` | outside (C19 parameters, C15 serialization) |
+  | … `gboost_model_t::fit` | modelled — `gboostFit` = `MLResult.runTune` ∘ `gbBatch` (tuning), `optimumOf`, `foldModels`, `finalize` (clear, sum, merge, scale by 1/folds; gbloop `M`), `finalValues`, `storeFinal` |
+  | … `do_predict` | modelled — `Boost.predict`, `modelOut` (family `fit`: prediction = bias + Σ) |
+  | gboost/result.cpp: constructor | modelled (`rows`); copies: outside |
+  | … `update` (both) | modelled — `statsRow` columns 0-4 (families `gbres`, gbloop `X`); columns 5-7 (solver calls, status): outside |
+  | … `done` | modelled — `foldResult` (`take round`, rows `take (round+1)`, then `merge` = oracle with `MergeLaw`, proved for C10's model) |
+  | gboost/util.cpp: `evaluate` | oracle — `Env.err / Env.loss` per sample (C06 kernels) |
+  | … `tune_shrinkage` | modelled — `shrinkValue`, `shrinkScan`, `tuneShrinkage` (gbloop `X` with hook H3b: every grid value and the answer); the residue of the in-place `+= / -=` at double is outside |
+  | … `mean_loss`, `mean_error` | modelled — `EarlyStopping.meanError` inside `statsRow` (bit-exact in `gbres`, gbloop `X`) |
+  | gboost/sampler.cpp: constructor, `sample` | oracle — `RoundOr.fitSamples` / `sampleOf` (`off` coded); C12 owns the model; monitored (⊆ train, size, no repetition for `subsample`) |
+  | linear.cpp: `make_x0`, `::fit` | oracle — `LinearFit.Env.solve params samples extra` (the warm-start argument is modelled: which trial's data is handed over) |
+  | … `linear_t::fit` | modelled — `linearFit` = `callback`, `batchFit`, `MLResult.runTune`, `optimumOf`, `refit`; family `fit linear` (python recomputation), `mlres` for the storage |
+  | … constructor, `read`, `write`, `all`, `do_predict` | outside / oracle `evalOn` |
+  | linear/util.cpp: `predict`, `evaluate` | oracle — `Env.evalOn` (python recomputes `W x + b` sample by sample) |
+  | … `feature_importance`, `sparsity_ratio`, `make_param_space` | outside (not in the statement; the space is C13's) |
+  | machine/tune.cpp: `tune` | modelled — C13 `Tune.runBatch` (imported) under `MLResult.runTune`, `cbOf` |
+  | machine/result.cpp: constructors, `add`, `optimum_trial`, `closest_trial`, `params`, `value`, `values`, `extra(t,f)` | modelled by C13 (`Tune.Result.*`, imported); here `optimumOf`, `meanValidErr`, `extraOf` (family `mlres`) |
+  | … `store(trial, fold, …)`, `store(final)`, `stats(t,f,split,kind)`, `stats(kind)`, `extra()` | modelled — `storeCell`, `store`, `storeFinal`, `stats`, `Full.stats` (family `mlres`) |
+  | … `make_random_path`, `log_path`, `refit_log_path` | outside |
+  | machine/stats.cpp: `store_stats`, `load_stats` | modelled by C20 — `Stats.storeStats` (imported) |
+  | learner.cpp: `predict` | modelled through `modelOut` (zeroed buffer + `do_predict`); `evaluate`: oracle; `critical_compatible`, `fit_dataset`, `read`, `write`: outside |
+  | wlearner/util.cpp: `scale`, `merge` | oracle with contracts `ScaleLaw`, `MergeLaw` — both PROVED for C10's model of the code (`Proofs/BoostFitC10.lean`); `clone`: outside |
+
+  Hypotheses re-examined: `ScaleLaw` is needed in `local` mode only and is necessary there (kernel-checked witness `envBad` below; on
+  the real code: mutation M1 of the report); `MergeLaw` enters only through `done`/`finalize`; the `DBL_MAX` hypothesis `hv` of the older
+  theorems is necessary for `snap = round + 1` (witness below; corpus op with an infinite validation error) — the new theorems avoid it
+  (`snap - 1 = round` holds in both cases, the constructor snapshot being the bias-only values); nothing is `_partial`.
 -/
 namespace NanoVerif.EarlyStopping
 open NanoVerif.Gen.EarlyStopping
@@ -495,9 +537,544 @@ example : roundEv (L := Nat) (100 : ℚ) (1/1000) { cands := [(100, 1), (200, 2)
 /-- the calls of the four-round fit above: numbered 0..3, the last one stops -/
 example : (fitCalls (L := Nat) (1/4 : ℚ) 2 1 1 100 1000 1 1
     [.fitted 10 1 (1/2), .fitted 11 1 (1/4), .fitted 12 1 (3/8), .fitted 13 1 0]).map (·.n) = [0, 1, 2, 3] := by decide +kernel
+/-- the `DBL_MAX` hypothesis of `fold_model_is_snapshot_model` is necessary: a first validation error that is not below
+    `v0 − ε` (e.g. an infinite one) is not accepted, the monitor keeps the tensor it was constructed with (`snap = 0 ≠ round + 1`) -/
+example : (fit (L := Nat) (1/4 : ℚ) 2 1 1 100 1000 1 1000 [.fitted 10 1 1000]).2.snap = 0 ∧
+    (fit (L := Nat) (1/4 : ℚ) 2 1 1 100 1000 1 1000 [.fitted 10 1 1000]).2.round = 0 := by decide +kernel
 /-- two folds `(1, [x ↦ x])`, `(3, [x ↦ 2x, x ↦ 1])`: the average predicts `(1 + 2) + (3 + 4 + 1)` / 2 at `x = 2` -/
 example : predict (averaged (0 : ℚ) (1/2) [(1, [fun x : ℚ => x]), (3, [fun x => 2 * x, fun _ => 1])]).1
     (averaged (0 : ℚ) (1/2) [(1, [fun x : ℚ => x]), (3, [fun x => 2 * x, fun _ => 1])]).2 2 = 11 / 2 := by
   norm_num [predict, averaged, scale]
 
 end NanoVerif.Boost
+
+/-! ## the fold fit with its data flow (`Model/BoostFit.lean`): what the reported numbers are numbers *of*
+
+  `cfg` carries every mode (`shrinkage` off / global / local, `subsample`, `wscale`) and parameter, `env` the weak-learner and
+  loss operations, `ors` the oracle answers of the iterations (sampler, weak-learner fits, scaling solver), `b` the fitted bias,
+  `params` the tuned hyper-parameters: all universally quantified. The only contracts: `ScaleLaw env` — needed in `local` mode
+  only, where the code multiplies the tracked predictions by the tuned ratio *instead of* re-predicting with the re-scaled
+  learner — and `MergeLaw env` for `wlearner::merge`; both are theorems of C10 for the modelled learners (`scale_scales`,
+  `merge_preserves_sum`; instantiated in `Proofs/BoostFitC10.lean`). -/
+namespace NanoVerif.BoostFit
+open NanoVerif.Gen.EarlyStopping NanoVerif.EarlyStopping NanoVerif.Boost
+
+set_option linter.unusedSectionVars false
+
+variable {W X S α : Type} [Field α] [LinearOrder α] [IsStrictOrderedRing α]
+
+/-- **The invariant that makes the per-round statistics reproducible from the stored model.** After any number of rounds, for
+    every oracle behaviour and every mode: the predictions at the call of `optimum.done` made with `k` learners are
+    `bias + Σ` predictions of the first `k` stored (scaled, shrunk) learners; the tracked `outputs` are those of the last such call;
+    the stored learners are these, plus at most one (the unscaled learner the scaling-failure exit appends). -/
+theorem tracked_outputs_eq_model_prediction (cfg : Cfg α) (env : Env W X S α) (hs : cfg.shrinkage = .local_ → ScaleLaw env)
+    (train valid : List S) (params : List α) (b : X → α) (ors : List (RoundOr W S α)) :
+    (∀ (k : Nat) (h : X → α), (fitRun cfg env train valid params b ors).hist[k]? = some h →
+        h = modelOut env b ((fitRun cfg env train valid params b ors).ws.take k)) ∧
+    (fitRun cfg env train valid params b ors).out =
+      modelOut env b ((fitRun cfg env train valid params b ors).ws.take ((fitRun cfg env train valid params b ors).hist.length - 1)) ∧
+    (fitRun cfg env train valid params b ors).hist.length - 1 ≤ (fitRun cfg env train valid params b ors).ws.length ∧
+    (fitRun cfg env train valid params b ors).ws.length ≤ (fitRun cfg env train valid params b ors).hist.length := by
+  have g := fitRun_good cfg env hs train valid params b ors
+  have h1 : ∀ (k : Nat) (h : X → α), (fitRun cfg env train valid params b ors).hist[k]? = some h →
+      h = modelOut env b ((fitRun cfg env train valid params b ors).ws.take k) := by
+    intro k h hk; funext c; exact g.outs k h hk c
+  refine ⟨h1, h1 _ _ g.out_last, ?_, ?_⟩
+  · have := g.hist_le; omega
+  · exact g.ws_le
+
+/-- the statistics row `k` is (mean training error, mean training loss, mean validation error, mean validation loss) of the
+    predictions of the model made of the bias and the first `k` stored learners — on the training / validation samples of the
+    fold, in the order of the sample lists, with `mean_error`'s `max(size, 1)` denominator — together with the ratio of the round -/
+theorem stats_row_is_means_of_outputs (cfg : Cfg α) (env : Env W X S α) (hs : cfg.shrinkage = .local_ → ScaleLaw env)
+    (train valid : List S) (params : List α) (b : X → α) (ors : List (RoundOr W S α)) (k : Nat)
+    (hk : k < (fitRun cfg env train valid params b ors).hist.length) :
+    ∃ r : α, (fitRun cfg env train valid params b ors).rows[k]? =
+      some (statsRow cfg env train valid (modelOut env b ((fitRun cfg env train valid params b ors).ws.take k)) r) := by
+  have g := fitRun_good cfg env hs train valid params b ors
+  obtain ⟨h, hh⟩ : ∃ h, (fitRun cfg env train valid params b ors).hist[k]? = some h :=
+    ⟨_, List.getElem?_eq_getElem hk⟩
+  obtain ⟨r, hr⟩ := g.rows k h hh
+  have : h = modelOut env b ((fitRun cfg env train valid params b ors).ws.take k) := by
+    funext c; exact g.outs k h hh c
+  exact ⟨r, by rw [hr, this]⟩
+
+/-- **The kept model reproduces the optimum round's row and the reported per-sample values.** What `::fit` returns after
+    `result.done(optimum.round())` (+ `merge`): `round + 1` statistics rows, the last of which is the row of means of the
+    *returned* model's own predictions, and the per-sample (error, loss) lists handed to `ml::result_t::store` are
+    `loss.error` / `loss.value` of the returned model's predictions on the training / validation samples of the fold. -/
+theorem kept_model_reproduces_optimum_row (cfg : Cfg α) (env : Env W X S α) (hs : cfg.shrinkage = .local_ → ScaleLaw env)
+    (hm : MergeLaw env) (train valid : List S) (params : List α) (b : X → α) (ors : List (RoundOr W S α)) :
+    (fitFold cfg env train valid params b ors).rows.length = (fitRun cfg env train valid params b ors).es.round + 1 ∧
+    (∃ r : α, (fitFold cfg env train valid params b ors).rows[(fitRun cfg env train valid params b ors).es.round]? =
+      some (statsRow cfg env train valid
+        (modelOut env (fitFold cfg env train valid params b ors).bias (fitFold cfg env train valid params b ors).ws) r)) ∧
+    (fitFold cfg env train valid params b ors).trainValues = train.map (fun s =>
+      (env.err (modelOut env (fitFold cfg env train valid params b ors).bias (fitFold cfg env train valid params b ors).ws) s,
+       env.loss (modelOut env (fitFold cfg env train valid params b ors).bias (fitFold cfg env train valid params b ors).ws) s)) ∧
+    (fitFold cfg env train valid params b ors).validValues = valid.map (fun s =>
+      (env.err (modelOut env (fitFold cfg env train valid params b ors).bias (fitFold cfg env train valid params b ors).ws) s,
+       env.loss (modelOut env (fitFold cfg env train valid params b ors).bias (fitFold cfg env train valid params b ors).ws) s)) := by
+  have g := fitRun_good cfg env hs train valid params b ors
+  generalize hst : fitRun cfg env train valid params b ors = st at g
+  have hmodel : modelOut env (fitFold cfg env train valid params b ors).bias (fitFold cfg env train valid params b ors).ws =
+      modelOut env b (st.ws.take st.es.round) := by
+    unfold fitFold foldResult; rw [hst]; exact modelOut_merge env hm b _
+  obtain ⟨h, hh⟩ : ∃ h, st.hist[st.es.round]? = some h := ⟨_, List.getElem?_eq_getElem g.round_lt⟩
+  have hsnap : st.hist.getD (st.es.snap - 1) b = modelOut env b (st.ws.take st.es.round) := by
+    rw [g.snap, List.getD_eq_getElem?_getD, hh]
+    funext c; exact g.outs _ h hh c
+  have hrows : (fitFold cfg env train valid params b ors).rows = st.rows.take (st.es.round + 1) := by
+    unfold fitFold foldResult; rw [hst]
+  have htv : (fitFold cfg env train valid params b ors).trainValues =
+      train.map (fun s => (env.err (st.hist.getD (st.es.snap - 1) b) s, env.loss (st.hist.getD (st.es.snap - 1) b) s)) := by
+    unfold fitFold foldResult; rw [hst]
+  have hvv : (fitFold cfg env train valid params b ors).validValues =
+      valid.map (fun s => (env.err (st.hist.getD (st.es.snap - 1) b) s, env.loss (st.hist.getD (st.es.snap - 1) b) s)) := by
+    unfold fitFold foldResult; rw [hst]
+  rw [hmodel, hrows, htv, hvv, hsnap]
+  refine ⟨?_, ?_, rfl, rfl⟩
+  · rw [List.length_take]; have := g.round_lt; have := g.rows_ge; omega
+  · obtain ⟨r, hr⟩ := g.rows _ h hh
+    refine ⟨r, ?_⟩
+    rw [List.getElem?_take_of_lt (Nat.lt_succ_self _), hr]
+    have : h = modelOut env b (st.ws.take st.es.round) := by funext c; exact g.outs _ h hh c
+    rw [this]
+
+/-- the fold fit *is* the control skeleton of `Model/Boost.lean` run on the events its iterations are: every theorem about
+    the skeleton (`fit_keeps_last_accepted`, `fit_patience_stop`, `fold_keeps_round_learners`, the `es_*` family) applies to
+    the learners the fold keeps (before `merge`) and to its monitor -/
+theorem fold_fit_refines_loop (cfg : Cfg α) (env : Env W X S α) (train valid : List S) (params : List α) (b : X → α)
+    (ors : List (RoundOr W S α)) :
+    ((fitRun cfg env train valid params b ors).ws.take (fitRun cfg env train valid params b ors).es.round,
+      (fitRun cfg env train valid params b ors).es) =
+    fit cfg.eps cfg.pat train.length valid.length cfg.maxRounds cfg.vmax
+      (statsRow cfg env train valid b (startRatio cfg params)).trainErr
+      (statsRow cfg env train valid b (startRatio cfg params)).validErr
+      (evsOf cfg env train valid (fitStart cfg env train valid params b).1 ors) := by
+  have hctl : (fitRun cfg env train valid params b ors).ctl =
+      fitLoop cfg.eps cfg.pat train.length valid.length cfg.maxRounds cfg.vmax
+        (statsRow cfg env train valid b (startRatio cfg params)).trainErr
+        (statsRow cfg env train valid b (startRatio cfg params)).validErr
+        (evsOf cfg env train valid (fitStart cfg env train valid params b).1 ors) := by
+    unfold fitRun fitLoop
+    by_cases hf : (fitStart cfg env train valid params b).2 = true
+    · have hf' : (done cfg.eps cfg.pat (init cfg.vmax)
+          { train := (statsRow cfg env train valid b (startRatio cfg params)).trainErr,
+            valid := (statsRow cfg env train valid b (startRatio cfg params)).validErr, n := 0, ntrain := train.length,
+            nvalid := valid.length, idx := 1 }).2 = true := hf
+      simp only [hf, hf', if_true]; rfl
+    · have hf' : ¬ (done cfg.eps cfg.pat (init cfg.vmax)
+          { train := (statsRow cfg env train valid b (startRatio cfg params)).trainErr,
+            valid := (statsRow cfg env train valid b (startRatio cfg params)).validErr, n := 0, ntrain := train.length,
+            nvalid := valid.length, idx := 1 }).2 = true := hf
+      rw [if_neg hf, if_neg hf', loop_refines, evsOf_take]; rfl
+  unfold fit
+  rw [← hctl]; rfl
+
+/-- `gboost::tune_shrinkage`: the answer is the **first** grid ratio with the **smallest** mean validation loss of
+    `outputs + ratio · woutputs` (and `0` only when no grid point has a mean below `DBL_MAX`, e.g. all NaN) -/
+theorem tuneShrinkage_spec (cfg : Cfg α) (env : Env W X S α) (valid : List S) (out wout : X → α) :
+    (tuneShrinkage cfg env valid out wout = cfg.zero ∧ ∀ s ∈ cfg.grid, ¬ shrinkValue cfg env valid out wout s < cfg.vmax) ∨
+    (∃ pre s post, cfg.grid = pre ++ s :: post ∧ tuneShrinkage cfg env valid out wout = s ∧
+      shrinkValue cfg env valid out wout s < cfg.vmax ∧
+      (∀ t ∈ pre, shrinkValue cfg env valid out wout s < shrinkValue cfg env valid out wout t) ∧
+      (∀ t ∈ post, shrinkValue cfg env valid out wout s ≤ shrinkValue cfg env valid out wout t)) := by
+  unfold tuneShrinkage shrinkScan
+  cases hb : (pickBest cfg.vmax (cfg.grid.map fun s => (shrinkValue cfg env valid out wout s, s))).2 with
+  | none =>
+    left
+    refine ⟨rfl, fun s hsg => ?_⟩
+    exact (pickBest_none_iff _ _).mp hb (shrinkValue cfg env valid out wout s, s) (List.mem_map.mpr ⟨s, hsg, rfl⟩)
+  | some s =>
+    right
+    obtain ⟨pre, v, post, e, _, hv, hpre, hpost⟩ := pickBest_first_min _ _ s hb
+    obtain ⟨p1, r1, e1, ep, er⟩ := List.map_eq_append_iff.mp e
+    obtain ⟨s', q1, e2, es, eq⟩ := List.map_eq_cons_iff.mp er
+    have hs' : s' = s := by injection es
+    have hvs : v = shrinkValue cfg env valid out wout s := by injection es with h1 h2; rw [← h1, h2]
+    subst hs'
+    refine ⟨p1, s', q1, by rw [e1, e2], rfl, hvs ▸ hv, ?_, ?_⟩
+    · intro t ht
+      have := hpre (shrinkValue cfg env valid out wout t, t) (by rw [← ep]; exact List.mem_map.mpr ⟨t, ht, rfl⟩)
+      rw [← hvs]; exact this
+    · intro t ht
+      have := hpost (shrinkValue cfg env valid out wout t, t) (by rw [← eq]; exact List.mem_map.mpr ⟨t, ht, rfl⟩)
+      rw [← hvs]; exact this
+
+/-- the scale that is applied is the solver's: in `gboost` mode (one group, `x = [x₀]`) and without local tuning, a round adds
+    `x₀ · ratio ·` (the fitted learner's prediction) to every tracked prediction, and stores the learner scaled by `x₀ · ratio` -/
+theorem round_update_gboost (cfg : Cfg α) (env : Env W X S α) (hsl : ScaleLaw env) (hl : cfg.shrinkage ≠ .local_)
+    (valid : List S) (out : X → α) (ratio x0 : α) (w : W) (c : X) :
+    (shrunk cfg env valid out ratio [x0] w).1 = ratio ∧
+    (shrunk cfg env valid out ratio [x0] w).2.1 = env.scaleW [x0 * ratio] w ∧
+    (shrunk cfg env valid out ratio [x0] w).2.2 c = env.pred w c * (x0 * ratio) := by
+  unfold shrunk
+  cases h : cfg.shrinkage with
+  | local_ => exact absurd h hl
+  | off => exact ⟨rfl, rfl, hsl _ _ _⟩
+  | global => exact ⟨rfl, rfl, hsl _ _ _⟩
+
+/-- **A second `fit()` starts from the cleared state**: the model `gboost_model_t::fit` leaves is a function of the fold models
+    of the optimum trial only — whatever bias and weak learners an earlier fit left in the object. -/
+theorem refit_starts_cleared (env : Env W X S α) (zero denom : α) (prev prev' : GModel W X α) (folds : List (GModel W X α)) :
+    finalize env zero denom prev folds = finalize env zero denom prev' folds := rfl
+
+/-- the final model predicts the average of the per-fold models of the optimum trial (on every cell), for the learners as
+    stored: with the scale law for the `1 / folds` scaling and the merge law -/
+theorem finalize_predicts_mean (env : Env W X S α) (hsl : ScaleLaw env) (hm : MergeLaw env) (prev : GModel W X α)
+    (folds : List (GModel W X α)) (hF : folds ≠ []) (c : X) :
+    modelOut env (finalize env 0 (1 / (folds.length : α)) prev folds).bias (finalize env 0 (1 / (folds.length : α)) prev folds).ws c =
+      (folds.map (fun f => modelOut env f.bias f.ws c)).sum / (folds.length : α) :=
+  finalize_mean env hsl hm prev folds hF c
+
+/-- the final statistics are statistics of the final model's own predictions on the samples `fit` was given -/
+theorem final_values_are_of_final_model (env : Env W X S α) (m : GModel W X α) (samples : List S) :
+    finalValues env m samples = samples.map (fun s =>
+      (env.err (fun c => predict (m.bias c) (m.ws.map env.pred) c) s, env.loss (fun c => predict (m.bias c) (m.ws.map env.pred) c) s)) :=
+  rfl
+
+end NanoVerif.BoostFit
+
+/-! ## `ml::result_t` filled by `ml::tune`: the reported statistics are `store_stats` of what the model callback returned
+
+  Generic in the scalar (core classes only: nothing arithmetic is used), in the model-specific data `E`, in the `nth_element`
+  oracle `sort`, in the number / sizes of the batches the tuner asks for and in the order in which the pool runs the tasks of a
+  batch (`Scheduled`: every index once — C13 `tune_calls_once`). `trialsOf pre + t` is the global number of the batch's trial `t`. -/
+namespace NanoVerif.MLResult
+open NanoVerif.Tune NanoVerif.Stats
+
+set_option linter.unusedSectionVars false
+
+section generic
+variable {E α : Type} [Add α] [Sub α] [Mul α] [Div α] [LT α] [LE α] [DecidableLT α] [DecidableLE α]
+  [OfNat α 0] [OfNat α 1] [OfNat α 2] [OfNat α 50] [OfNat α 100] [FloorI α] [HasSqrt α]
+
+/-- **What `result.stats(trial, fold, split, kind)` returns is `storeStats` of the per-sample values of the fold model on that
+    split** — the values the model callback of the trial's batch returned for (trial, fold) — and `extra(trial, fold)` is the
+    model-specific data returned with them; `given` = the data of the closest trial the callback was handed. No off-by-one in the
+    trial / fold / split / kind indexing, for any history of batches and any execution order. -/
+theorem reported_stats_are_stats_of_recomputed (sort : List α → List α) (folds : Nat) (pre : List (Batch E α)) (b : Batch E α)
+    (post : List (Batch E α)) (hs : Scheduled folds (pre ++ b :: post)) (t f : Nat) (ht : t < b.k) (hf : f < folds)
+    (split : Split) (kind : Kind) :
+    stats (runTune sort folds (pre ++ b :: post)) (trialsOf pre + t) f split kind =
+      storeStats sort (column ((b.fit t f (extraOf ((runTune sort folds pre).add b.k) (b.closest t) f)).sel split) kind) ∧
+    extraOf (runTune sort folds (pre ++ b :: post)) (trialsOf pre + t) f =
+      some (b.fit t f (extraOf ((runTune sort folds pre).add b.k) (b.closest t) f)).extra := by
+  have h := tune_slot sort folds pre b post hs t f ht hf
+  unfold stats extraOf
+  rw [h]
+  refine ⟨?_, rfl⟩
+  simp only [Option.bind_some, cbOf, storeCell_sel]
+  cases split <;> rfl
+
+/-- outside the asserts of `stats` / `extra` (trial or fold out of range) the model answers `none` -/
+theorem stats_out_of_range (r : Result (Payload E α)) (trial fold : Nat) (split : Split) (kind : Kind)
+    (h : r.folds ≤ fold ∨ r.trials ≤ trial) : stats r trial fold split kind = none ∧ extraOf r trial fold = none := by
+  have : r.get? trial fold = none := by
+    unfold Result.get?
+    rw [if_neg]; intro hc; rcases h with h | h
+    · exact absurd hc.1 (by omega)
+    · exact absurd hc.2 (by omega)
+  unfold stats extraOf; rw [this]; exact ⟨rfl, rfl⟩
+
+/-- the final statistics (`result.stats(kind)`) are `storeStats` of the per-sample values handed to `store(values, extra)` -/
+theorem final_stats_are_stats_of_values (sort : List α → List α) (r : Result (Payload E α)) (vals : List (α × α))
+    (extra : Option E) (kind : Kind) :
+    (storeFinal sort r vals extra).stats kind = storeStats sort (column vals kind) ∧
+    (storeFinal sort r vals extra).extra = extra ∧ (storeFinal sort r vals extra).tuned = r := by
+  cases kind <;> exact ⟨rfl, rfl, rfl⟩
+
+/-- the run is well-formed: `folds` folds, as many trials as the batches asked for, one slot per (trial, fold) -/
+theorem tune_shape (sort : List α → List α) (folds : Nat) (bs : List (Batch E α)) :
+    (runTune sort folds bs).wf ∧ (runTune sort folds bs).folds = folds ∧ (runTune sort folds bs).trials = trialsOf bs :=
+  runTune_wf sort folds bs
+
+/-- in the first batch there is no earlier trial: whatever trial `closest_trial` names, the data read is the empty `std::any` -/
+theorem first_batch_reads_nothing (sort : List α → List α) (folds k c f : Nat) :
+    extraOf (((runTune sort folds ([] : List (Batch E α))).add k)) c f = none := by
+  have hr : (runTune sort folds ([] : List (Batch E α))).add k =
+      ⟨folds, 0 + k, [] ++ List.replicate (k * folds) none⟩ := rfl
+  unfold extraOf Result.get?
+  rw [hr]
+  dsimp only
+  by_cases h : f < folds ∧ c < 0 + k
+  · rw [if_pos h, List.nil_append, List.getElem?_replicate]
+    split <;> rfl
+  · rw [if_neg h]; rfl
+
+end generic
+end NanoVerif.MLResult
+
+namespace NanoVerif.LinearFit
+open NanoVerif.Tune NanoVerif.Stats NanoVerif.MLResult
+
+set_option linter.unusedSectionVars false
+
+section generic
+variable {P M S α : Type} [Add α] [Sub α] [Mul α] [Div α] [LT α] [LE α] [DecidableLT α] [DecidableLE α]
+  [OfNat α 0] [OfNat α 1] [OfNat α 2] [OfNat α 50] [OfNat α 100] [FloorI α] [HasSqrt α]
+
+/-- `linear_t::fit`, the tuning loop: for every trial of every batch and every fold, the stored model `m` is what `::fit`
+    returned for the trial's parameters on the fold's **training** samples (started from the data of the closest trial), and the
+    four reported statistics blocks are `storeStats` of `linear::evaluate` **of that same model** on the fold's training /
+    validation samples -/
+theorem linear_fold_stats_are_of_returned_model (sort : List α → List α) (env : Env P M S α) (folds : Nat)
+    (pre post : List (Batch M α)) (k : Nat) (order : List Nat) (closest : Nat → Nat) (rows : Nat → P)
+    (splits : Nat → List S × List S)
+    (hs : Scheduled folds (pre ++ { k := k, order := order, closest := closest, fit := batchFit env rows splits } :: post))
+    (t f : Nat) (ht : t < k) (hf : f < folds) :
+    ∃ m : M,
+      m = env.solve (rows t) (splits f).1 (extraOf ((runTune sort folds pre).add k) (closest t) f) ∧
+      extraOf (runTune sort folds (pre ++ { k := k, order := order, closest := closest, fit := batchFit env rows splits } :: post))
+        (trialsOf pre + t) f = some m ∧
+      ∀ (split : Split) (kind : Kind),
+        stats (runTune sort folds (pre ++ { k := k, order := order, closest := closest, fit := batchFit env rows splits } :: post))
+          (trialsOf pre + t) f split kind =
+        storeStats sort (column ((match split with | .train => (splits f).1 | .valid => (splits f).2).map (env.evalOn m)) kind) := by
+  refine ⟨_, rfl, ?_, ?_⟩
+  · exact (reported_stats_are_stats_of_recomputed sort folds pre _ post hs t f ht hf .train .errors).2
+  · intro split kind
+    rw [(reported_stats_are_stats_of_recomputed sort folds pre _ post hs t f ht hf split kind).1]
+    cases split <;> rfl
+
+/-- the refit: the final statistics are `storeStats` of `linear::evaluate` of the model fitted on **all** given samples with
+    the optimum parameters from a **cold** start; that model is the one the object keeps (`m_bias`, `m_weights`) and the one
+    stored as `result.extra()`; the tuned part of the result is untouched -/
+theorem linear_final_stats_are_of_refit_model (sort : List α → List α) (env : Env P M S α) (prev : Obj M)
+    (tuned : Result (Payload M α)) (optParams : P) (samples : List S) (kind : Kind) :
+    (refit sort env prev tuned optParams samples).2.stats kind =
+      storeStats sort (column (samples.map (env.evalOn (env.solve optParams samples none))) kind) ∧
+    (refit sort env prev tuned optParams samples).1.model = some (env.solve optParams samples none) ∧
+    (refit sort env prev tuned optParams samples).2.extra = some (env.solve optParams samples none) ∧
+    (refit sort env prev tuned optParams samples).2.tuned = tuned := by
+  cases kind <;> exact ⟨rfl, rfl, rfl, rfl⟩
+
+/-- a second `fit()` of the same object does not read what the first one left -/
+theorem linear_refit_ignores_previous_object (sort : List α → List α) (env : Env P M S α) (prev prev' : Obj M)
+    (tuned : Result (Payload M α)) (optParams : P) (samples : List S) :
+    refit sort env prev tuned optParams samples = refit sort env prev' tuned optParams samples := rfl
+
+end generic
+
+/-- the warm start reads only earlier trials (C13 `tune_reads_only_earlier` on this payload): with `old` the parameter rows of
+    the earlier batches (at least one trial) and `new` those of the batch in flight, the trial `closest_trial(p, old_trials)`
+    names is an earlier one, does not depend on the batch in flight, and its model data is the one the earlier batches stored -/
+theorem linear_warm_start_reads_only_earlier {M π β α : Type} [Field β] [LinearOrder β] [IsStrictOrderedRing β]
+    [Add α] [Sub α] [Mul α] [Div α] [LT α] [LE α] [DecidableLT α] [DecidableLE α]
+    [OfNat α 0] [OfNat α 1] [OfNat α 2] [OfNat α 50] [OfNat α 100] [FloorI α] [HasSqrt α]
+    (sort : List α → List α) (folds : Nat) (pre : List (Batch M α)) (top : β) (dist : π → π → β) (old new : List π)
+    (hold : old.length = trialsOf pre) (hpos : 0 < trialsOf pre) (p : π) (f : Nat) :
+    closestTrial top dist (old ++ new) p (trialsOf pre) < trialsOf pre ∧
+    closestTrial top dist (old ++ new) p (trialsOf pre) = closestTrial top dist old p (trialsOf pre) ∧
+    extraOf ((runTune sort folds pre).add new.length) (closestTrial top dist (old ++ new) p (trialsOf pre)) f =
+      extraOf (runTune sort folds pre) (closestTrial top dist (old ++ new) p (trialsOf pre)) f := by
+  obtain ⟨w1, _, w3⟩ := runTune_wf sort folds pre
+  have h := Tune.tune_reads_only_earlier top dist (runTune sort folds pre) w1 old new (by rw [w3]; exact hold)
+    (by rw [w3]; exact hpos) p f
+  rw [w3] at h
+  exact ⟨h.1, h.2.1, by unfold extraOf; rw [h.2.2]⟩
+
+end NanoVerif.LinearFit
+
+namespace NanoVerif.BoostFit
+open NanoVerif.Tune NanoVerif.Stats NanoVerif.MLResult NanoVerif.Boost
+
+set_option linter.unusedSectionVars false
+
+variable {W X S α : Type} [Field α] [LinearOrder α] [IsStrictOrderedRing α] [FloorI α] [HasSqrt α]
+
+/-- what the model callback of `gboost_model_t::fit` returns (model.cpp:295-305): the fold fit's per-sample values and, as the
+    model-specific data, its `gboost::result_t`; the data of the closest trial is ignored (unnamed `const std::any&`) -/
+def toFoldFit (R : FoldResult W X α) : FoldFit (FoldResult W X α) α :=
+  { trainValues := R.trainValues, validValues := R.validValues, extra := R }
+
+/-- the batch of `ml::tune` whose model callback is the fold fit: trial `t` of the batch has the parameters `cfgOf t`, `rows t`;
+    fold `f` the samples `splits f`; `bias t f`, `ors t f` are the oracle answers of that fold fit -/
+def gbBatch (env : BoostFit.Env W X S α) (cfgOf : Nat → Cfg α) (k : Nat) (order : List Nat) (closest : Nat → Nat)
+    (rows : Nat → List α) (splits : Nat → List S × List S) (bias : Nat → Nat → X → α)
+    (ors : Nat → Nat → List (RoundOr W S α)) : Batch (FoldResult W X α) α :=
+  ⟨k, order, closest, fun t f _ => toFoldFit (fitFold (cfgOf t) env (splits f).1 (splits f).2 (rows t) (bias t f) (ors t f))⟩
+
+/-- **gboost, end to end in the model**: for every trial of every batch and every fold, the four statistics blocks
+    `result.stats(trial, fold, split, kind)` are `storeStats` of `loss.error` / `loss.value` of the predictions of the **stored
+    fold model** (`extra(trial, fold)`: bias + its kept, merged weak learners) on the fold's training / validation samples — for
+    every mode, every oracle behaviour of sampler / weak-learner fits / solvers, every batch history and execution order. -/
+theorem gboost_reported_stats_are_stats_of_recomputed (sort : List α → List α) (env : BoostFit.Env W X S α)
+    (cfgOf : Nat → Cfg α) (hs : ∀ t, (cfgOf t).shrinkage = .local_ → ScaleLaw env) (hm : MergeLaw env) (folds : Nat)
+    (pre post : List (Batch (FoldResult W X α) α)) (k : Nat) (order : List Nat) (closest : Nat → Nat)
+    (rows : Nat → List α) (splits : Nat → List S × List S) (bias : Nat → Nat → X → α) (ors : Nat → Nat → List (RoundOr W S α))
+    (hsch : Scheduled folds (pre ++ gbBatch env cfgOf k order closest rows splits bias ors :: post))
+    (t f : Nat) (ht : t < k) (hf : f < folds) :
+    ∃ R : FoldResult W X α,
+      extraOf (runTune sort folds (pre ++ gbBatch env cfgOf k order closest rows splits bias ors :: post))
+        (trialsOf pre + t) f = some R ∧
+      ∀ (split : Split) (kind : Kind),
+        stats (runTune sort folds (pre ++ gbBatch env cfgOf k order closest rows splits bias ors :: post))
+          (trialsOf pre + t) f split kind =
+        storeStats sort (column ((match split with | .train => (splits f).1 | .valid => (splits f).2).map (fun s =>
+          (env.err (modelOut env R.bias R.ws) s, env.loss (modelOut env R.bias R.ws) s))) kind) := by
+  obtain ⟨_, _, htv, hvv⟩ := kept_model_reproduces_optimum_row (cfgOf t) env (hs t) hm (splits f).1 (splits f).2 (rows t)
+    (bias t f) (ors t f)
+  refine ⟨_, (reported_stats_are_stats_of_recomputed sort folds pre _ post hsch t f ht hf .train .errors).2, ?_⟩
+  intro split kind
+  rw [(reported_stats_are_stats_of_recomputed sort folds pre _ post hsch t f ht hf split kind).1]
+  cases split
+  · show storeStats sort (column (fitFold (cfgOf t) env (splits f).1 (splits f).2 (rows t) (bias t f) (ors t f)).trainValues kind) = _
+    rw [htv]; rfl
+  · show storeStats sort (column (fitFold (cfgOf t) env (splits f).1 (splits f).2 (rows t) (bias t f) (ors t f)).validValues kind) = _
+    rw [hvv]; rfl
+
+end NanoVerif.BoostFit
+
+/-! ## the two `fit()` functions end to end (`Model/BoostFitTop.lean`) -/
+namespace NanoVerif.BoostFit
+open NanoVerif.Tune NanoVerif.Stats NanoVerif.MLResult NanoVerif.Boost
+
+set_option linter.unusedSectionVars false
+
+variable {W X S P M α : Type} [Field α] [LinearOrder α] [IsStrictOrderedRing α] [FloorI α] [HasSqrt α]
+
+/-- **`gboost_model_t::fit` end to end**, for every history of tuner batches and pool schedules, every oracle behaviour inside the
+    fold fits (they only enter through the stored `extra`s), `folds ≥ 1`, the optimum trial being one of the trials (`hopt`: C13
+    `optimum_is_argmin` when at least one trial has a value): (1) what an earlier `fit()` left in the object is irrelevant; (2) every
+    fold of the optimum trial has a stored model; (3) **the final model predicts, on every cell, the average of the stored per-fold
+    models of the optimum trial**; (4) the final statistics are `storeStats` of `loss.error` / `loss.value` of the final model's own
+    predictions on the samples `fit` was given; no model data is stored with them and the tuned part is untouched. -/
+theorem gboost_fit_end_to_end (sort : List α → List α) (env : BoostFit.Env W X S α) (hsl : ScaleLaw env) (hm : MergeLaw env)
+    (top dflt : α) (folds : Nat) (hfolds : 0 < folds) (bs : List (Batch (FoldResult W X α) α)) (hs : Scheduled folds bs)
+    (hopt : optimumOf top dflt (runTune sort folds bs) < trialsOf bs) (samples : List S) (prev prev' : GModel W X α) :
+    gboostFit sort env top dflt 0 (1 / (folds : α)) folds bs samples prev =
+      gboostFit sort env top dflt 0 (1 / (folds : α)) folds bs samples prev' ∧
+    (∀ f, f < folds → (extraOf (runTune sort folds bs) (optimumOf top dflt (runTune sort folds bs)) f).isSome) ∧
+    (∀ c : X, modelOut env (gboostFit sort env top dflt 0 (1 / (folds : α)) folds bs samples prev).1.bias
+        (gboostFit sort env top dflt 0 (1 / (folds : α)) folds bs samples prev).1.ws c =
+      ((List.range folds).map (fun f =>
+        match extraOf (runTune sort folds bs) (optimumOf top dflt (runTune sort folds bs)) f with
+        | some R => modelOut env R.bias R.ws c
+        | none => 0)).sum / (folds : α)) ∧
+    (∀ kind : Kind, (gboostFit sort env top dflt 0 (1 / (folds : α)) folds bs samples prev).2.stats kind =
+      storeStats sort (column (samples.map (fun s =>
+        (env.err (modelOut env (gboostFit sort env top dflt 0 (1 / (folds : α)) folds bs samples prev).1.bias
+            (gboostFit sort env top dflt 0 (1 / (folds : α)) folds bs samples prev).1.ws) s,
+         env.loss (modelOut env (gboostFit sort env top dflt 0 (1 / (folds : α)) folds bs samples prev).1.bias
+            (gboostFit sort env top dflt 0 (1 / (folds : α)) folds bs samples prev).1.ws) s))) kind)) ∧
+    (gboostFit sort env top dflt 0 (1 / (folds : α)) folds bs samples prev).2.extra = none ∧
+    (gboostFit sort env top dflt 0 (1 / (folds : α)) folds bs samples prev).2.tuned = runTune sort folds bs := by
+  generalize hr : runTune sort folds bs = r at hopt
+  generalize ho : optimumOf top dflt r = opt at hopt
+  have hset : ∀ f, f < folds → ∃ p, r.get? opt f = some p := by
+    intro f hf; rw [← hr]; exact all_slots_set sort folds bs hs opt f hopt hf
+  refine ⟨rfl, ?_, ?_, ?_, rfl, ?_⟩
+  · intro f hf
+    obtain ⟨p, hp⟩ := hset f hf
+    unfold extraOf; rw [hp]; rfl
+  · intro c
+    have hfm : foldModels r opt folds = (List.range folds).map (fun f =>
+        ((extraOf r opt f).map (fun R => ({ bias := R.bias, ws := R.ws } : GModel W X α))).getD ⟨fun _ => 0, []⟩) := by
+      unfold foldModels
+      apply filterMap_all_some
+      intro f hf
+      obtain ⟨p, hp⟩ := hset f (List.mem_range.mp hf)
+      exact ⟨_, by unfold extraOf; rw [hp]; rfl⟩
+    have hlen : (foldModels r opt folds).length = folds := by rw [hfm]; simp
+    have hne : foldModels r opt folds ≠ [] := by
+      intro h; rw [h] at hlen; simp at hlen; omega
+    have hmean := finalize_mean env hsl hm prev (foldModels r opt folds) hne c
+    rw [hlen] at hmean
+    show modelOut env (finalize env 0 (1 / (folds : α)) prev (foldModels (runTune sort folds bs) (optimumOf top dflt (runTune sort folds bs)) folds)).bias
+      (finalize env 0 (1 / (folds : α)) prev (foldModels (runTune sort folds bs) (optimumOf top dflt (runTune sort folds bs)) folds)).ws c = _
+    rw [hr, ho, hmean, hfm, List.map_map]
+    congr 1
+    congr 1
+    apply List.map_congr_left
+    intro f _
+    dsimp only [Function.comp_apply]
+    cases he : extraOf r opt f with
+    | some R => rfl
+    | none => simp [modelOut, predict]
+  · intro kind
+    cases kind <;> rfl
+  · show runTune sort folds bs = r
+    exact hr
+
+/-- **`linear_t::fit` end to end**: the final statistics are `storeStats` of `linear::evaluate` of the model fitted cold on all given
+    samples with the parameters of the optimum trial; that model is the one the object keeps and the one stored as `extra()`;
+    the per-trial / per-fold part is the tuning run; the previous state of the object is irrelevant -/
+theorem linear_fit_end_to_end (sort : List α → List α) (env : LinearFit.Env P M S α) (top dflt : α) (folds : Nat)
+    (bs : List (Batch M α)) (rowOf : Nat → P) (samples : List S) (prev prev' : LinearFit.Obj M) (kind : Kind) :
+    linearFit sort env top dflt folds bs rowOf samples prev = linearFit sort env top dflt folds bs rowOf samples prev' ∧
+    (linearFit sort env top dflt folds bs rowOf samples prev).2.stats kind =
+      storeStats sort (column (samples.map (env.evalOn
+        (env.solve (rowOf (optimumOf top dflt (runTune sort folds bs))) samples none))) kind) ∧
+    (linearFit sort env top dflt folds bs rowOf samples prev).1.model =
+      some (env.solve (rowOf (optimumOf top dflt (runTune sort folds bs))) samples none) ∧
+    (linearFit sort env top dflt folds bs rowOf samples prev).2.extra =
+      some (env.solve (rowOf (optimumOf top dflt (runTune sort folds bs))) samples none) ∧
+    (linearFit sort env top dflt folds bs rowOf samples prev).2.tuned = runTune sort folds bs := by
+  cases kind <;> exact ⟨rfl, rfl, rfl, rfl, rfl⟩
+
+end NanoVerif.BoostFit
+
+/-! ## non-vacuity of the data-flow theorems, and the necessity of the scale law (ℚ; one cell, one sample; target 3, error = loss
+    = squared distance; a learner is the constant it predicts; `local` shrinkage over the grid {1/2, 1}) -/
+namespace NanoVerif.BoostFit.Examples
+open NanoVerif.BoostFit NanoVerif.Boost NanoVerif.Tune NanoVerif.MLResult
+
+def cfgEx : Cfg ℚ :=
+  { eps := 1/4, pat := 2, maxRounds := 5, shrinkage := .local_, subsample := .off, wscale := .gboost, vmax := 1000, noFit := 100,
+    epsMach := 1/1000, zero := 0, one := 1, ofNat := fun n => (n : ℚ), grid := [1/2, 1] }
+
+/-- `scale` multiplies the constant: the scale law holds -/
+def envEx : Env ℚ Unit Unit ℚ :=
+  { pred := fun w _ => w, scaleW := fun sc w => w * sc.headD 1, merge := id, groups := fun _ => 1,
+    err := fun out _ => (out () - 3) * (out () - 3), loss := fun out _ => (out () - 3) * (out () - 3) }
+
+/-- the seeded change: the ratio is not applied to the stored learner -/
+def envBad : Env ℚ Unit Unit ℚ := { envEx with scaleW := fun _ w => w }
+
+def orsEx : List (RoundOr ℚ Unit ℚ) :=
+  [{ fitSamples := [], cands := [(1, 2)], x := [1], xmin := 1 }, { fitSamples := [], cands := [(5, 9), (1, 4)], x := [1], xmin := 1 }]
+
+example : ScaleLaw envEx := by intro c w x; simp [envEx]
+example : MergeLaw envEx := by intro ws x; rfl
+/-- round 1 adds the learner 2 with the tuned ratio 1, round 2 the learner 4 with the tuned ratio 1/2 (stored as 2): the tracked
+    prediction 4 is bias 0 + 2 + 2 -/
+example : (fitRun cfgEx envEx [()] [()] [] (fun _ => 0) orsEx).ws = [2, 2] ∧
+    (fitRun cfgEx envEx [()] [()] [] (fun _ => 0) orsEx).out () = 4 ∧
+    modelOut envEx (fun _ => 0) (fitRun cfgEx envEx [()] [()] [] (fun _ => 0) orsEx).ws () = 4 ∧
+    (fitRun cfgEx envEx [()] [()] [] (fun _ => 0) orsEx).ratio = 1/2 ∧
+    (fitRun cfgEx envEx [()] [()] [] (fun _ => 0) orsEx).es.round = 1 := by decide +kernel
+/-- the fold keeps one learner and two statistics rows: the second is the row of the kept model (error 1) -/
+example : (fitFold cfgEx envEx [()] [()] [] (fun _ => 0) orsEx).ws = [2] ∧
+    (fitFold cfgEx envEx [()] [()] [] (fun _ => 0) orsEx).rows.map (·.validErr) = [9, 1] ∧
+    (fitFold cfgEx envEx [()] [()] [] (fun _ => 0) orsEx).validValues = [(1, 1)] := by decide +kernel
+/-- **the scale law is necessary** in `local` mode: with a `scale` that does not multiply the prediction (and nothing else
+    changed) the tracked prediction is 4 while the stored model predicts 0 + 2 + 4 = 6 -/
+example : ¬ ScaleLaw envBad := by
+  intro h; have := h (1/2) 4 (); simp [envBad, envEx] at this
+example : (fitRun cfgEx envBad [()] [()] [] (fun _ => 0) orsEx).out () = 4 ∧
+    modelOut envBad (fun _ => 0) (fitRun cfgEx envBad [()] [()] [] (fun _ => 0) orsEx).ws () = 6 := by decide +kernel
+/-- without `local` shrinkage no law is needed: the same bad `scale`, shrinkage off, and the invariant holds -/
+example : (fitRun { cfgEx with shrinkage := .off } envBad [()] [()] [] (fun _ => 0) orsEx).out () =
+    modelOut envBad (fun _ => 0) (fitRun { cfgEx with shrinkage := .off } envBad [()] [()] [] (fun _ => 0) orsEx).ws () := by
+  decide +kernel
+/-- as coded (model.cpp:178 reads the mutable `shrinkage_ratio`): in `local` mode the ratio tuned in round `k − 1` also multiplies
+    the solver's scale of round `k` — the learner −4 of round 2 is stored as −4 · (1 · 1/2) · 1/2 = −1, round 1 having tuned 1/2 -/
+example : (fitRun cfgEx envEx [()] [()] [] (fun _ => 0)
+    [{ fitSamples := [], cands := [(1, 8)], x := [1], xmin := 1 }, { fitSamples := [], cands := [(1, -4)], x := [1], xmin := 1 }]).ws
+      = [4, -1] := by decide +kernel
+/-- `tune_shrinkage` on the second round: grid values 1 (at 1/2) and 9 (at 1): the first smallest -/
+example : tuneShrinkage cfgEx envEx [()] (fun _ => 2) (fun _ => 4) = 1/2 := by decide +kernel
+/-- the final model of two such folds predicts their mean -/
+example : modelOut envEx (finalize envEx 0 (1/2) ⟨fun _ => 7, [5]⟩ [⟨fun _ => 0, [2]⟩, ⟨fun _ => 1, [2, 2]⟩]).bias
+    (finalize envEx 0 (1/2) ⟨fun _ => 7, [5]⟩ [⟨fun _ => 0, [2]⟩, ⟨fun _ => 1, [2, 2]⟩]).ws () = 7/2 := by decide +kernel
+/-- a schedule: one batch of two trials on two folds, run in the order 3, 0, 2, 1 -/
+example (fit : Nat → Nat → Option Nat → FoldFit Nat ℚ) : Scheduled 2 [(⟨2, [3, 0, 2, 1], id, fit⟩ : Batch Nat ℚ)] := by
+  intro b hb
+  have : b = ⟨2, [3, 0, 2, 1], id, fit⟩ := by simpa using hb
+  subst this
+  show List.Perm [3, 0, 2, 1] (List.range (2 * 2))
+  decide
+
+end NanoVerif.BoostFit.Examples
